@@ -286,6 +286,21 @@ def main(tier, seed):
             elif numpy.max(numpy.abs(H - h_from_t)) > 1e-7 * sc: bad = 'tensor (d=2) != Hessian'
             if bad:
                 rep.violation('smooth:' + bad.split()[0], 'forward drivers are mutually inconsistent: %s' % bad, dict(kind='smooth', prog=prog, x=x.tolist(), v=v.tolist()))
+            # the same drivers at an integer-valued point handed over in an integer dtype (Python int, int32, int16, uint8) and as floats
+            idt = rng.choice([int, numpy.int32, numpy.int16, numpy.uint8])
+            xi = numpy.array([rng.randint(0 if idt is numpy.uint8 else -3, 3) for _ in range(N)])
+            xf, xt = xi.astype(float), xi.astype(idt)
+            rep.count('point dtype', numpy.dtype(idt).name)
+            pairs = [('jacobian', lambda z: UTPM.extract_jacobian(f(UTPM.init_jacobian(z)))), ('jac_vec', lambda z: UTPM.extract_jac_vec(f(UTPM.init_jac_vec(z, v)))),
+                     ('hessian', lambda z: UTPM.extract_hessian(N, f(UTPM.init_hessian(z)))), ('hess_vec', lambda z: UTPM.extract_hess_vec(N, f(UTPM.init_hess_vec(z, v)))),
+                     ('tensor', lambda z: UTPM.extract_tensor(N, f(UTPM.init_tensor(2, z)), as_full_matrix=False))]
+            for dname, dr in pairs:
+                a_, b_ = numpy.asarray(dr(xf), dtype=float), numpy.asarray(dr(xt), dtype=float)
+                fin = numpy.isfinite(a_)
+                if a_.shape != b_.shape or not numpy.array_equal(fin, numpy.isfinite(b_)) or not numpy.allclose(a_[fin], b_[fin], rtol=1e-9, atol=1e-9):
+                    rep.violation('smooth:int-point:' + dname, 'forward driver %s at the point %s given with dtype %s differs from the same point given as floats' % (dname, xi.tolist(), numpy.dtype(idt).name),
+                                  dict(kind='smooth', prog=prog, x=xi.tolist(), dtype=numpy.dtype(idt).name, v=v.tolist()))
+                    break
         except Exception as e:
             rep.violation('smooth:exception:%s' % type(e).__name__, 'forward driver raises %r' % (e,), dict(kind='smooth', prog=prog, x=x.tolist(), exc=repr(e)))
 
